@@ -189,6 +189,36 @@ func (context *Context) ResolveRefs(def ast.Type) ast.Type {
 	return def
 }
 
+// ResolveNullableAlias follows `def` through the objects that merely name
+// another object (`A: B`) and returns the type of the first object on the way
+// that is nullable (`MaybeE: E | null`): a value of type `def` is then held
+// through that nullable type (a pointer, in languages that have them) although
+// `def` itself is not nullable. The zero type is returned when there is none.
+func (context *Context) ResolveNullableAlias(def ast.Type) ast.Type {
+	visited := make(map[string]struct{})
+
+	for def.IsRef() {
+		ref := def.AsRef()
+		if _, seen := visited[ref.String()]; seen {
+			break
+		}
+		visited[ref.String()] = struct{}{}
+
+		referredObj, found := context.LocateObject(ref.ReferredPkg, ref.ReferredType)
+		if !found {
+			break
+		}
+
+		if referredObj.Type.Nullable {
+			return referredObj.Type
+		}
+
+		def = referredObj.Type
+	}
+
+	return ast.Type{}
+}
+
 // IsRecursiveCollection tells whether following the references and the values
 // of the arrays and maps found in `def` leads back to a reference that was
 // already followed (`M: [string]: M`, `A: [...B]` with `B: [...A]`, …).
